@@ -225,7 +225,7 @@ def serialise(g, rng, base_name="Opc.Ua.NodeSet2.xml", placement=None, file_name
             ma = [("ModelUri", U)] + ([("Version", m["version"])] if m["version"] else []) + ([("PublicationDate", m["pubdate"])] if m["pubdate"] else [])
             req = [[("ModelUri", r["uri"])] + ([("Version", r["version"])] if r["version"] else []) + ([("PublicationDate", r["pubdate"])] if r["pubdate"] else []) for r in m["required"]]
             models = [dict(attrs=ma, required=req)]
-        elif U == UA and rng.random() < 0.5:
+        elif U == UA and (rng.random() < 0.5 or getattr(g, "base_model", False)):
             models = [dict(attrs=[("ModelUri", UA), ("Version", "1.04.7"), ("PublicationDate", "2020-07-15T00:00:00Z")], required=[])]
         fname = names.get(U) or (base_name if U == UA else "ns_%02d_%s%s.xml" % (rng.randint(0, 99), "".join(c for c in U if c.isalnum())[-8:], "_b" if part_no else ""))
         d = dict(uris=local[1:] if (len(local) > 1 or rng.random() < 0.5) else None, models=models, aliases=alias_list if (alias_list or rng.random() < 0.5) else None, nodes=nodes)
